@@ -186,6 +186,9 @@ def strategy(tier):
     names = st.one_of(
         st.sampled_from(["", "%", "%s", "%d %(x)s", "a.b", "with space", "100%", "svc", "svc", "x"]),
         st.text(max_size=6),
+        # long names (module paths, URLs, request descriptions): the tag must carry the whole name
+        st.sampled_from(["x" * 33, "service.component.subcomponent.handler:operation", "GET /api/v1/tenants/1234/items?limit=50&order=desc {" + "y" * 40 + "}"]),
+        st.text(alphabet="abcXYZ09 ._-/%{}", min_size=30, max_size=90),
     )
     val = st.one_of(st.integers(-5, 5), st.text(max_size=4), st.none(), st.just("%s"), st.just(3.5))
     seg = st.one_of(
